@@ -432,6 +432,30 @@ func classifyLedIndex(vw *FnView, idx ssa.Value, at *ssa.BasicBlock) (key string
 				return classifyLedIndex(vw, w, at)
 			}
 		}
+		// an element of a local table of LED positions that was filled from hit edges only (positions looked up once,
+		// before the refresh loop, instead of on every frame)
+		if x.Op == token.MUL {
+			if root := tableRoot(x.X); root != nil {
+				n, bad := 0, ""
+				for _, src := range tableIntSources(root) {
+					if src.val == nil {
+						bad = src.why
+						break
+					}
+					n++
+					if _, ok, why := classifyLedIndex(vw, src.val, src.at); !ok {
+						bad = why
+						break
+					}
+				}
+				if bad == "" && n > 0 {
+					return "ledArray[id from a local table of looked-up positions]", true, fmt.Sprintf("index read from a local table whose %d element source(s) are hit edges of comma-ok lookups", n)
+				}
+				if bad != "" {
+					return "ledArray[id from a local table]", false, "local table of positions with an element of another origin: " + bad
+				}
+			}
+		}
 	}
 	return "ledArray[?]", false, "index of unknown origin " + idx.String()
 }
@@ -1201,6 +1225,25 @@ func ruleNoNarrowTransposition(c *Ctx, dv *dev) {
 		collect(h)
 	}
 	ord := map[string]int{}
+	transpositionReads, narrowed := 0, 0
+	defer func() {
+		// a frame that reads the transposition but never narrows anything computed from it (`table[mapping][base]` with an int
+		// index instead of `m[byte(base)]`) satisfies the rule by construction; the reads are the anchor
+		if narrowed == 0 && transpositionReads > 0 {
+			c.OK("R17.10", shortFn(root)+"/no-narrowed-transposition", c.P.Pos(root.Pos()), fmt.Sprintf("the frame code reads octave/semitone at %d place(s) and converts nothing computed from them to an 8-bit type", transpositionReads))
+		}
+	}()
+	for _, fn := range fns {
+		for _, b := range fn.Blocks {
+			for _, in := range b.Instrs {
+				if fa, ok := in.(*ssa.FieldAddr); ok {
+					if f := fieldOfAddr(fa); f != nil && (sameField(f, dv.fields["octave"]) || sameField(f, dv.fields["semitone"])) {
+						transpositionReads++
+					}
+				}
+			}
+		}
+	}
 	for _, fn := range fns {
 		vw := pf.view(fn)
 		for _, b := range fn.Blocks {
@@ -1221,6 +1264,7 @@ func ruleNoNarrowTransposition(c *Ctx, dv *dev) {
 					continue
 				}
 				ord[shortFn(fn)]++
+				narrowed++
 				key := fmt.Sprintf("%s/narrowed-transposition#%d", shortFn(fn), ord[shortFn(fn)])
 				okR, why := pf.proveRange(cv.X, b, lo, hi, 0)
 				c.Check(okR, "R17.10", key, c.P.Pos(cv.Pos()), "a value computed from the transposition is converted to 8 bits only inside its range: "+why,
@@ -1356,4 +1400,139 @@ func ruleConfiguredColourUnmodified(c *Ctx, dv *dev) {
 	if n == 0 {
 		c.OK("R17.11", "device.handleOpenrgb/pitch-class colour stored as configured", c.P.Pos(root.Pos()), "no transformation is applied to the configured pitch-class colours")
 	}
+}
+
+// tableRoot: addr is an element address inside a local container (slices/arrays nested in any way, made in this function);
+// returns the container's origin (MakeSlice or Alloc), or nil.
+func tableRoot(addr ssa.Value) ssa.Value {
+	for i := 0; i < 12 && addr != nil; i++ {
+		switch x := addr.(type) {
+		case *ssa.IndexAddr:
+			addr = x.X
+		case *ssa.Index:
+			addr = x.X
+		case *ssa.UnOp:
+			if x.Op != token.MUL {
+				return nil
+			}
+			addr = x.X
+		case *ssa.Slice:
+			addr = x.X
+		case *ssa.Phi:
+			// the range loop's slice operand is loop invariant: all non-self edges must agree
+			var one ssa.Value
+			for _, e := range x.Edges {
+				if e == x {
+					continue
+				}
+				if one != nil && one != e {
+					return nil
+				}
+				one = e
+			}
+			addr = one
+		case *ssa.MakeSlice:
+			return x
+		case *ssa.Alloc:
+			if w := wholeStore(x); w != nil {
+				addr = w
+				continue
+			}
+			return x
+		default:
+			return nil
+		}
+	}
+	return nil
+}
+
+type tableSrc struct {
+	val ssa.Value // an integer stored as an element (nil: a source that cannot be followed, see why)
+	at  *ssa.BasicBlock
+	why string
+}
+
+// tableIntSources: every integer that can become an element of the local container root: stores through element addresses,
+// and the elements appended to slices that are stored there.
+func tableIntSources(root ssa.Value) []tableSrc {
+	fn := root.Parent()
+	var out []tableSrc
+	var fromSlice func(v ssa.Value, at *ssa.BasicBlock, depth int)
+	fromSlice = func(v ssa.Value, at *ssa.BasicBlock, depth int) {
+		if depth > 6 {
+			out = append(out, tableSrc{why: "slice built too deep to follow"})
+			return
+		}
+		switch x := v.(type) {
+		case *ssa.Const:
+			// nil slice
+		case *ssa.Call:
+			if b, ok := x.Call.Value.(*ssa.Builtin); ok && b.Name() == "append" && len(x.Call.Args) == 2 {
+				if tableRoot(x.Call.Args[0]) != root {
+					fromSlice(x.Call.Args[0], at, depth+1)
+				}
+				fromSlice(x.Call.Args[1], at, depth+1)
+				return
+			}
+			out = append(out, tableSrc{why: "slice returned by " + x.Call.Value.Name()})
+		case *ssa.Slice:
+			if a, ok := x.X.(*ssa.Alloc); ok { // the variadic arguments of append
+				for _, r := range *a.Referrers() {
+					if ia, ok := r.(*ssa.IndexAddr); ok {
+						for _, rr := range *ia.Referrers() {
+							if st, ok := rr.(*ssa.Store); ok && st.Addr == ia {
+								out = append(out, tableSrc{val: st.Val, at: st.Block()})
+							}
+						}
+					}
+				}
+				return
+			}
+			if tableRoot(x.X) == root {
+				return
+			}
+			out = append(out, tableSrc{why: "slice of " + x.X.Name()})
+		case *ssa.UnOp:
+			if tableRoot(x) == root {
+				return // an element of the table itself
+			}
+			out = append(out, tableSrc{why: "slice loaded from elsewhere"})
+		case *ssa.MakeSlice:
+			if k, ok := x.Len.(*ssa.Const); ok && k.Int64() == 0 {
+				return
+			}
+			out = append(out, tableSrc{why: "slice made with zero elements of its own (index 0)"})
+		default:
+			out = append(out, tableSrc{why: fmt.Sprintf("slice of unknown origin %s", v.Name())})
+		}
+	}
+	if ms, ok := root.(*ssa.MakeSlice); ok {
+		if el, ok := ms.Type().Underlying().(*types.Slice); ok && isIntegerType(el.Elem()) {
+			if k, ok := ms.Len.(*ssa.Const); !ok || k.Int64() != 0 {
+				out = append(out, tableSrc{why: "table made with zero elements of its own (index 0)"})
+			}
+		}
+	}
+	for _, b := range fn.Blocks {
+		for _, in := range b.Instrs {
+			st, ok := in.(*ssa.Store)
+			if !ok {
+				continue
+			}
+			if _, isIA := st.Addr.(*ssa.IndexAddr); !isIA || tableRoot(st.Addr) != root {
+				continue
+			}
+			switch t := st.Val.Type().Underlying().(type) {
+			case *types.Basic:
+				if isIntegerType(t) {
+					out = append(out, tableSrc{val: st.Val, at: b})
+				}
+			case *types.Slice:
+				fromSlice(st.Val, b, 0)
+			default:
+				out = append(out, tableSrc{why: "whole rows stored into the table"})
+			}
+		}
+	}
+	return out
 }
